@@ -13,6 +13,7 @@ import (
 )
 
 func statusVector(c *x509.Certificate) map[string]int {
+	tick()
 	m := map[string]int{}
 	for n, r := range zlint.LintCertificate(c).Results {
 		m[n] = int(r.Status)
